@@ -324,3 +324,12 @@ Proof.
     pose proof (zlen_zdrop_le c (zdrop e (zdrop n r))); pose proof (zlen_zdrop_le e (zdrop n r)); pose proof (zlen_zdrop_le n r) end.
   unfold zlen in *. lia.
 Qed.
+
+(* ================================================================== apk: the digest comparison loop of apkSigner.Verify *)
+Lemma digest_loop_ok n : forall ds i, 0 <= i -> i + zlen ds <= n -> digest_loop n i ds = Ok tt.
+Proof.
+  induction ds as [|d ds IH]; intros i Hi Hn; [reflexivity|]. cbn [digest_loop]. rewrite zlen_cons in Hn. pose proof (zlen_nonneg ds).
+  replace ((i <? 0) || (n <=? i)) with false by lia. apply IH; lia.
+Qed.
+Theorem verify_digests_no_panic hashes p : verify_digests hashes <> Panic p.
+Proof. unfold verify_digests, merkle_out_len. rewrite digest_loop_ok by lia. discriminate. Qed.
